@@ -126,9 +126,9 @@ def explore(prop, sub, task):
         def test(case):
             ctx = run_body(sub, case, agg)
             if shrink_key and matches(ctx, shrink_key):
-                from .core import jsonable
+                from .core import jsonable, sig_key
                 found['case'] = jsonable(case)
-                found['detail'] = [d for s, d in ctx.failures][0]
+                found['detail'] = [d for s, d in ctx.failures if sig_key(s) == shrink_key][0]
                 raise AssertionError('match')
         try:
             test()
@@ -140,9 +140,9 @@ def explore(prop, sub, task):
         def sink(case, ctx):
             agg.record(case, ctx)
             if shrink_key and matches(ctx, shrink_key):
-                from .core import jsonable
+                from .core import jsonable, sig_key
                 found['case'] = jsonable(case)
-                found['detail'] = [d for s, d in ctx.failures][0]
+                found['detail'] = [d for s, d in ctx.failures if sig_key(s) == shrink_key][0]
                 return True
             return False
         M = sub.machine(tier, sink, agg)
